@@ -29,7 +29,7 @@ class CsvReader(Filter[Iterable[str], Iterable[MutableSequence]]):
 
     def filter(self, items: Iterable[str]) -> Iterable[Dense]:
 
-        lines = iter(csv.reader(iter(filter(None,(i.strip() for i in items))), **self._dialect))
+        lines = iter(csv.reader(iter(filter(None,(i.strip('\r\n') for i in items))), **self._dialect))
         first = next(lines)
 
         if self._has_header:
